@@ -157,9 +157,28 @@ RECURSIVE ShapeOf(_, _)
 ShapeOf(S, p) == [i \in 1..Len(KidsOf(S, p)) |-> ShapeOf(S, KidsOf(S, p)[i])]
 
 ----------------------------------------------------------------------------
+(* C17: graph exports.  Keys: with unique_nodes a graph node stands for a data_id (root: RootKey),
+   otherwise for a tree node (root: 0).  One edge per tree node whose parent is part of the export. *)
+Starts(S) == Live(S) \cup {0}
+RootKey == -100
+ExportKey(S, i, unique) == IF i = 0 THEN (IF unique THEN RootKey ELSE 0) ELSE (IF unique THEN S.did[i] ELSE i)
+ExportMembers(S, start, self) == (IF self THEN {start} ELSE {}) \cup Desc(S, start)
+ExportNodeKeys(S, start, self, unique) == {ExportKey(S, i, unique) : i \in ExportMembers(S, start, self)}
+ExportEdges(S, start, self, unique) ==      \* sequence (one entry per tree node), in pre-order
+   LET M == ExportMembers(S, start, self)
+       cs == SelectSeq(Pre(S, start), LAMBDA n : S.par[n] \in M)
+   IN [j \in 1..Len(cs) |-> <<ExportKey(S, S.par[cs[j]], unique), ExportKey(S, cs[j], unique), S.knd[cs[j]]>>]
+SameBag(s1, s2) == Len(s1) = Len(s2) /\ \A e \in SeqSet(s1) \cup SeqSet(s2) : Count(s1, e) = Count(s2, e)
+(* removing the root removes exactly the root node and the edges leaving it *)
+LawExportRoot(S) == \A start \in Starts(S), unique \in BOOLEAN :
+   LET w == ExportEdges(S, start, TRUE, unique) wo == ExportEdges(S, start, FALSE, unique) IN
+   /\ \A j \in 1..Len(wo) : \E i \in 1..Len(w) : w[i] = wo[j]
+   /\ Len(w) - Len(wo) = Len(KidsOf(S, start))
+   /\ Len(w) = Cardinality(Desc(S, start))
+
+----------------------------------------------------------------------------
 (* C08: filter results.  FilterScan (Nutree.tla) is the operational scan; KeepDecl the declarative
    characterisation: accepted nodes, whole selected branches, and the ancestors (below the start) of both *)
-Starts(S) == Live(S) \cup {0}
 FVerdicts == {"T", "F", "skip", "skipKeep", "select", "stop"}
 RECURSIVE KeptForest(_, _, _)
 KeptForest(S, K, seq) ==
